@@ -210,4 +210,125 @@ theorem restricted_symLin {n : Nat} {H : Vec α → Vec α} (hH : SymLin n H) (J
         dot_comm, hH.sym _ _ lu lv]
 
 end restricted
+/-! ### the index-set split `J` / `K = complement J`: partition of unity, gather ∘ overlay -/
+section full
+variable {α : Type} [Field α]
+
+theorem complement_nodup (J : List Nat) (n : Nat) : (complement J n).Nodup := by
+  unfold complement
+  exact List.Nodup.filter _ List.nodup_range
+
+theorem mem_complement' (J : List Nat) (n i : Nat) : i ∈ complement J n ↔ i < n ∧ i ∉ J := by
+  simp [complement]
+
+theorem complement_lt (J : List Nat) (n : Nat) : ∀ j ∈ complement J n, j < n :=
+  fun j hj => ((mem_complement' J n j).mp hj).1
+
+theorem findIdx?_of_not_mem (J : List Nat) (i : Nat) (h : i ∉ J) : J.findIdx? (· == i) = none := by
+  rw [List.findIdx?_eq_none_iff]
+  intro x hx
+  exact beq_eq_false_iff_ne.mpr (fun he => h (he ▸ hx))
+
+theorem findIdx?_of_mem (J : List Nat) (i : Nat) (h : i ∈ J) :
+    ∃ k, ∃ hk : k < J.length, J.findIdx? (· == i) = some k ∧ J[k] = i := by
+  cases hf : J.findIdx? (· == i) with
+  | none =>
+    rw [List.findIdx?_eq_none_iff] at hf
+    have := hf i h
+    simp at this
+  | some k =>
+    rw [List.findIdx?_eq_some_iff_getElem] at hf
+    obtain ⟨hk, he, _⟩ := hf
+    exact ⟨k, hk, rfl, by simpa using he⟩
+
+/-- Coordinates of `overlay base J w` (for `w` as long as `J`). -/
+theorem vget_overlay (base : List α) (J : List Nat) (w : List α) (i : Nat) (hi : i < base.length) :
+    vget (overlay base J w) i =
+      match J.findIdx? (· == i) with
+      | some k => vget w k
+      | none => vget base i := by
+  simp only [overlay, vget, List.getD_eq_getElem?_getD, List.getElem?_map,
+    List.getElem?_range hi, Option.map_some, Option.getD_some]
+  cases J.findIdx? (· == i) <;> rfl
+
+theorem vec_eq_map_range (x : List α) : x = (List.range x.length).map (vget x) := by
+  apply List.ext_getElem
+  · simp
+  · intro i h1 h2
+    simp [vget, List.getD_eq_getElem?_getD, List.getElem?_eq_getElem h1]
+
+/-- Partition of unity: a vector is the sum of its `J`-part and its `K`-part scattered back. -/
+theorem scatter_partition (J : List Nat) (n : Nat) (x : List α) (hx : x.length = n) :
+    vadd (overlay (zeros n) J (gather J x)) (overlay (zeros n) (complement J n) (gather (complement J n) x))
+      = x := by
+  conv_rhs => rw [vec_eq_map_range x, hx]
+  unfold overlay
+  rw [length_zeros, vadd_map]
+  apply List.map_congr_left
+  intro i hi
+  have hin : i < n := List.mem_range.mp hi
+  by_cases hJ : i ∈ J
+  · obtain ⟨k, hk, hf, he⟩ := findIdx?_of_mem J i hJ
+    have hK : i ∉ complement J n := fun h => ((mem_complement' J n i).mp h).2 hJ
+    rw [hf, findIdx?_of_not_mem _ i hK]
+    simp only [vget_zeros, add_zero]
+    rw [vget_gather J x k hk, he]
+  · have hK : i ∈ complement J n := (mem_complement' J n i).mpr ⟨hin, hJ⟩
+    obtain ⟨k, hk, hf, he⟩ := findIdx?_of_mem _ i hK
+    rw [hf, findIdx?_of_not_mem _ i hJ]
+    simp only [vget_zeros, zero_add]
+    rw [vget_gather _ x k hk, he]
+
+/-- `q⁰ = overlay p J 0` (the code's `q(K) = p(K); q(J) = 0`) is the `K`-part of `p` scattered. -/
+theorem overlay_zero_eq_scatterK (J : List Nat) (p : List α) :
+    overlay p J (zeros J.length)
+      = overlay (zeros p.length) (complement J p.length) (gather (complement J p.length) p) := by
+  unfold overlay
+  rw [length_zeros]
+  apply List.map_congr_left
+  intro i hi
+  have hin : i < p.length := List.mem_range.mp hi
+  by_cases hJ : i ∈ J
+  · obtain ⟨k, hk, hf, he⟩ := findIdx?_of_mem J i hJ
+    have hK : i ∉ complement J p.length := fun h => ((mem_complement' J _ i).mp h).2 hJ
+    rw [hf, findIdx?_of_not_mem _ i hK]
+    simp [vget_zeros]
+  · have hK : i ∈ complement J p.length := (mem_complement' J _ i).mpr ⟨hin, hJ⟩
+    obtain ⟨k, hk, hf, he⟩ := findIdx?_of_mem _ i hK
+    rw [hf, findIdx?_of_not_mem _ i hJ]
+    simp only
+    rw [vget_gather _ p k hk, he]
+
+/-- Gathering what was overlaid on `J` gives it back (duplicate-free, in-range `J`). -/
+theorem gather_overlay_self (base : List α) (J : List Nat) (w : List α) (hn : J.Nodup)
+    (hJ : ∀ j ∈ J, j < base.length) (hw : w.length = J.length) : gather J (overlay base J w) = w := by
+  apply List.ext_getElem
+  · simp [gather, hw]
+  · intro k h1 h2
+    have hk : k < J.length := by simpa [gather] using h1
+    have hlt : J[k] < base.length := hJ _ (List.getElem_mem hk)
+    have h3 : vget (gather J (overlay base J w)) k = vget w k := by
+      rw [vget_gather _ _ k hk, vget_overlay base J w _ hlt]
+      have hsome : J.findIdx? (· == J[k]) = some k := by
+        rw [List.findIdx?_eq_some_iff_getElem]
+        refine ⟨hk, by simp, ?_⟩
+        intro j hj
+        simp only [beq_iff_eq]
+        intro h
+        have := (hn.getElem_inj_iff).mp h
+        omega
+      rw [hsome]
+    simpa [vget, List.getD_eq_getElem?_getD, List.getElem?_eq_getElem h1, List.getElem?_eq_getElem h2] using h3
+
+/-- Gathering on the complement sees only the base. -/
+theorem gather_overlay_compl (base : List α) (J : List Nat) (w : List α) :
+    gather (complement J base.length) (overlay base J w) = gather (complement J base.length) base := by
+  unfold gather
+  apply List.map_congr_left
+  intro i hi
+  obtain ⟨hlt, hnot⟩ := (mem_complement' J _ i).mp hi
+  rw [vget_overlay base J w i hlt, findIdx?_of_not_mem _ i hnot]
+
+end full
+
 end Alpaqa.C11
